@@ -378,7 +378,7 @@ def _line_iter_kind(it: ast.AST, param: str) -> str:
         f = ast.unparse(it.func)
         if f in ("StringIO", "io.StringIO") and len(it.args) == 1 and ast.unparse(it.args[0]) == param and not it.keywords:
             return "lf"       # newline="\n" is StringIO's default: no translation, lines end at "\n" only
-        if f in ("re.split",) and len(it.args) == 2 and isinstance(it.args[0], ast.Constant) and it.args[0].value == "(?<=\n)" \
+        if f in ("re.split",) and len(it.args) == 2 and isinstance(it.args[0], ast.Constant) and it.args[0].value in ("(?<=\n)", "(?<=\\n)") \
                 and ast.unparse(it.args[1]) == param:
             return "lf"
         if isinstance(it.func, ast.Attribute) and it.func.attr == "splitlines" and ast.unparse(it.func.value) == param:
